@@ -50,7 +50,8 @@ int HashRP::searchHash(Thash H, Tpair p) {
 void HashRP::deleteHash(Thash *H, int id) {
   Trecord *rec = H->Rec->records;
   H->table[rec[id].kpos] = -2;
-  H->used--;
+  // the cell stays occupied by the deletion mark: `used` counts the cells that
+  // are not empty, because searches only stop at empty cells
 }
 
 Thash HashRP::createHash(int maxpos, Trarray *Rec) {
@@ -80,11 +81,17 @@ int HashRP::finsertHash(Thash H, Tpair p) {
 void HashRP::insertHash(Thash *H, int id) {
   int k;
   Trecord *rec = H->Rec->records;
-  if (H->used > H->maxpos * factor) // resize
+  if (H->used > H->maxpos * factor) // rebuild: grows if needed, drops the marks
   {
-    Thash newH = createHash((H->maxpos << 1) | 1, H->Rec);
     int i;
     int *tab = H->table;
+    int live = 0;
+    for (i = 0; i <= H->maxpos; i++)
+      if (tab[i] >= 0)
+        live++;
+    Thash newH = createHash(
+        (live > H->maxpos * factor / 2) ? ((H->maxpos << 1) | 1) : H->maxpos,
+        H->Rec);
     for (i = 0; i <= H->maxpos; i++)
       if (tab[i] >= 0) // also removes marked deletions
       {
@@ -92,12 +99,13 @@ void HashRP::insertHash(Thash *H, int id) {
         newH.table[k] = tab[i];
         rec[tab[i]].kpos = k;
       }
-    newH.used = H->used;
+    newH.used = live;
     free(H->table);
     *H = newH;
   }
-  H->used++;
   k = finsertHash(*H, rec[id].pair);
+  if (H->table[k] == -1) // a deletion mark is already counted
+    H->used++;
   H->table[k] = id;
   rec[id].kpos = k;
 }
